@@ -446,6 +446,23 @@ func init() {
 			fn := fr.i.w.funcByName("context", "Background")
 			return call(fr.i, fr, token.NoPos, fn, nil)
 		},
+		"(net/url.Values).Encode": func(fr *frame, a []value) value {
+			m, _ := a[0].(*omap)
+			if m != nil {
+				for k := range m.keys {
+					if !m.alive[k] {
+						continue
+					}
+					for _, v := range m.vals[k].([]value) {
+						if _, ok := v.(string); !ok {
+							fr.i.stubs["url.Values.Encode of symbolic values yields a fresh opaque string"]++
+							return fr.i.freshOpaque("urlenc")
+						}
+					}
+				}
+			}
+			return callBody(fr.i, fr, fr.fn, a)
+		},
 		"encoding/json.NewDecoder": newZeroPointee,
 		"encoding/json.NewEncoder": newZeroPointee,
 
